@@ -22,7 +22,7 @@ var Registry = map[string]func(*ev.Run){
 	},
 	"C01": func(r *ev.Run) {
 		RunRtPairs(r)
-		for _, fam := range []string{"c05", "c06", "c07", "c08"} {
+		for _, fam := range []string{"c05", "c06", "c07", "c08", "c10"} {
 			c := RunWorkers(r, fam, []string{pairTier(r)}, "")
 			r.Cov["family_"+fam+"_compiled_cases"] = c["compiled_cases"]
 			r.Cov["evaluations"] = r.Cov["evaluations"].(int) + c["compiled_cases"]
@@ -43,6 +43,9 @@ var Registry = map[string]func(*ev.Run){
 	},
 	"C08": func(r *ev.Run) {
 		RunScenarioFamily(r, "c08", len(C08Scenarios(pairTier(r))), "enum pairs over underlying {int,uint8,int64 beyond 2^53,uint64 near 2^64,string,float64} x member-set variants (same, renamed, extra source/target member, aliases on either side, prefixed) x enum:map / enum:transform regex / enum:unknown (each action, key, bad key, bad action; converter or method level) / enum no / enum:exclude x position (top, field, slice element, map value, map key); generation outcome vs model; accepted cases executed on every member value and on non-member values of the underlying domain")
+	},
+	"C10": func(r *ev.Run) {
+		RunScenarioFamily(r, "c10", len(C10Scenarios(pairTier(r))), "update methods In{F,G} -> *Out{F,G,Keep(ignored)} for every field kind (basic, named basic, unnamed/named struct, pointer, slice, map, pointer-to-value, any/func/chan/array under skipCopySameType, non-comparable struct) x every subset of the ignoreZeroValueField categories x level (method, converter, CLI -g) x skipCopySameType x method-level 'no' override x signature variants (pointer source, argument order, error, context); executed for every source value within the deviation bound x every target pre-state; oracle: target after the call equals the pre-state with exactly the model-selected fields replaced, source unchanged")
 	},
 	"C13": func(r *ev.Run) { RunPairs(r, pairTier(r)) },
 }
@@ -66,6 +69,9 @@ var Workers = map[string]func(w *pool.W, shard, n int, args []string) error{
 	},
 	"c08": func(w *pool.W, shard, n int, args []string) error {
 		return ScenarioWorker(w, shardOf(C08Scenarios(args[0]), shard, n), args[0], true)
+	},
+	"c10": func(w *pool.W, shard, n int, args []string) error {
+		return ScenarioWorker(w, shardOf(C10Scenarios(args[0]), shard, n), args[0], true)
 	},
 	"pairs": func(w *pool.W, shard, n int, args []string) error { return PairWorker(w, shard, n, args[0]) },
 }
